@@ -123,6 +123,7 @@ Lemma send_recv_origin : forall fixed w rt mh hops p f r,
   (exists a a2 pb, In r (notify w rt mh a2 (mkpkt a S_PING (p_fn p) (p_fs p)) pb)).
 Proof.
   intros fixed w rt mh hops p f r H. unfold send_gen in H.
+  destruct (too_long (p_fs p) || too_long (p_ts p)); [cbn in H; contradiction|].
   destruct (travel w (rt (p_fn p) (p_tn p)) hops true p) eqn:T; unfold quiet in H;
     cbn -[S_PING] in H; try contradiction.
   - destruct f; cbn in H; [contradiction|]. unfold after_wait, quiet in H.
@@ -215,6 +216,7 @@ Theorem unknown_service_is_reported : forall w rt mh hops p f mid back d n,
   wf_world w = true ->
   utf8_valid (p_fn p) = true -> utf8_valid (p_fs p) = true ->
   beq_bytes (p_fn p) (p_tn p) = false ->
+  too_long (p_fs p) || too_long (p_ts p) = false ->
   rt (p_fn p) (p_tn p) = mid ++ [p_tn p] -> transit_ok w mid hops p = true ->
   find_node w (p_tn p) = Some d -> fw_eval (nd_fw d) (p_ts p) = FwAccept ->
   reserved (p_ts p) = false -> mem (p_ts p) (nd_bound d) = false ->
@@ -223,8 +225,8 @@ Theorem unknown_service_is_reported : forall w rt mh hops p f mid back d n,
   mem (p_fs p) (nd_bound n) = true ->
   send w rt mh hops p f = mkout SNone None false [(p_fn p, p_fs p, notif_of (p_tn p) p PUnknown)].
 Proof.
-  intros w rt mh hops p f mid back d n Hw U1 U2 Hne Hrt Htr Hfd Hfw Hres Hunb Hback Htrb Hfn Hfwn Hb.
-  unfold send, send_gen. rewrite Hrt.
+  intros w rt mh hops p f mid back d n Hw U1 U2 Hne Hl Hrt Htr Hfd Hfw Hres Hunb Hback Htrb Hfn Hfwn Hb.
+  unfold send, send_gen. rewrite Hl, Hrt.
   destruct (travel_transit w mid hops true p (p_tn p) [] Htr) as [h' E]. rewrite E.
   destruct (find_node_some _ _ _ Hfd) as [Hid _].
   cbn [travel]. rewrite Hfd.
@@ -241,6 +243,7 @@ Theorem closed_while_waiting_is_reported : forall w rt mh hops p mid back d n,
   wf_world w = true ->
   utf8_valid (p_fn p) = true -> utf8_valid (p_fs p) = true ->
   beq_bytes (p_fn p) (p_tn p) = false ->
+  too_long (p_fs p) || too_long (p_ts p) = false ->
   rt (p_fn p) (p_tn p) = mid ++ [p_tn p] -> transit_ok w mid hops p = true ->
   find_node w (p_tn p) = Some d -> fw_eval (nd_fw d) (p_ts p) = FwAccept ->
   reserved (p_ts p) = false -> mem (p_ts p) (nd_bound d) = true ->
@@ -250,8 +253,8 @@ Theorem closed_while_waiting_is_reported : forall w rt mh hops p mid back d n,
   send w rt mh hops p FClosedWaiting
   = mkout SNone None false [(p_fn p, p_fs p, notif_of (p_tn p) p PUnknown)].
 Proof.
-  intros w rt mh hops p mid back d n Hw U1 U2 Hne Hrt Htr Hfd Hfw Hres Hbd Hback Htrb Hfn Hfwn Hb.
-  unfold send, send_gen. rewrite Hrt.
+  intros w rt mh hops p mid back d n Hw U1 U2 Hne Hl Hrt Htr Hfd Hfw Hres Hbd Hback Htrb Hfn Hfwn Hb.
+  unfold send, send_gen. rewrite Hl, Hrt.
   destruct (travel_transit w mid hops true p (p_tn p) [] Htr) as [h' E]. rewrite E.
   destruct (find_node_some _ _ _ Hfd) as [Hid _].
   cbn [travel]. rewrite Hfd.
@@ -263,18 +266,26 @@ Proof.
   - now apply json_rt_valid.
 Qed.
 
+(* a service name that does not fit the wire format: nothing is sent, the caller gets the error *)
+Theorem too_long_name_is_refused : forall fixed w rt mh hops p f,
+  too_long (p_fs p) || too_long (p_ts p) = true ->
+  send_gen fixed w rt mh hops p f = mkout STooLong None false [].
+Proof. intros. unfold send_gen. now rewrite H. Qed.
+
 (* ---------- policy drops ---------- *)
 Theorem drop_is_silent : forall fixed w rt mh hops p f mid d rest nd,
+  too_long (p_fs p) || too_long (p_ts p) = false ->
   rt (p_fn p) (p_tn p) = mid ++ d :: rest -> transit_ok w mid hops p = true ->
   find_node w d = Some nd -> fw_eval (nd_fw nd) (p_ts p) = FwDrop ->
   send_gen fixed w rt mh hops p f = quiet.
 Proof.
-  intros fixed w rt mh hops p f mid d rest nd Hrt Htr Hf Hfw. unfold send_gen. rewrite Hrt.
+  intros fixed w rt mh hops p f mid d rest nd Hl Hrt Htr Hf Hfw. unfold send_gen. rewrite Hl, Hrt.
   destruct (travel_transit w mid hops true p d rest Htr) as [h' E]. rewrite E.
   cbn [travel]. rewrite Hf, handle_drop by assumption. reflexivity.
 Qed.
 
 Corollary dropped_dial_is_not_cancelled : forall w rt mh p f mid d rest nd,
+  too_long (p_fs p) || too_long (p_ts p) = false ->
   rt (p_fn p) (p_tn p) = mid ++ d :: rest -> transit_ok w mid mh p = true ->
   find_node w d = Some nd -> fw_eval (nd_fw nd) (p_ts p) = FwDrop ->
   dial w rt mh p f = DTimesOut.
@@ -330,6 +341,7 @@ Corollary dial_to_unbound_service_is_cancelled : forall w rt mh p f mid back d n
   utf8_valid (p_fn p) = true -> utf8_valid (p_fs p) = true ->
   utf8_valid (p_tn p) = true -> utf8_valid (p_ts p) = true ->
   beq_bytes (p_fn p) (p_tn p) = false ->
+  too_long (p_fs p) || too_long (p_ts p) = false ->
   rt (p_fn p) (p_tn p) = mid ++ [p_tn p] -> transit_ok w mid mh p = true ->
   find_node w (p_tn p) = Some d -> fw_eval (nd_fw d) (p_ts p) = FwAccept ->
   reserved (p_ts p) = false -> mem (p_ts p) (nd_bound d) = false ->
@@ -338,7 +350,7 @@ Corollary dial_to_unbound_service_is_cancelled : forall w rt mh p f mid back d n
   mem (p_fs p) (nd_bound n) = true ->
   dial w rt mh p f = DCancelled.
 Proof.
-  intros w rt mh p f mid back d n Hw U1 U2 U3 U4 Hne Hrt Htr Hfd Hfw Hres Hunb Hback Htrb Hfn Hfwn Hb.
+  intros w rt mh p f mid back d n Hw U1 U2 U3 U4 Hne Hl Hrt Htr Hfd Hfw Hres Hunb Hback Htrb Hfn Hfwn Hb.
   apply dial_cancelled_by_notice.
   rewrite (unknown_service_is_reported w rt mh mh p f mid back d n) by assumption.
   split; [reflexivity|]. eexists. split; [left; reflexivity|].
